@@ -153,6 +153,15 @@ pub fn run_case(ctx: &Ctx, idx: u64) -> Vec<CaseOut> {
             let b = r.usize_below(text.len() - 300);
             d.extend_from_slice(&text[b..b + 200]);
         }
+        if r.chance(1, 3) {
+            // one LZMA chunk near the 2 MiB limit of its size field behind the stored ones
+            let front = gen::gen_data(&mut r, gen::Family::Text, 30_000);
+            let mut f = front;
+            f.extend_from_slice(&d);
+            let zn = (2 << 20) + r.usize_below(400_000);
+            f.extend(std::iter::repeat(0u8).take(zn));
+            d = f;
+        }
         data = d;
     }
     let sizes: Vec<usize> = if r.chance(1, 2) {
